@@ -130,19 +130,6 @@ where
       | some a, some b => some (a ++ b)
       | _, _ => none
 
-/-- `Glyph._decomposeComponent` as it was BEFORE repo_fixes/C13-decompose-shallow.diff: the pen tests
-incoming identifiers against the registry while the glyph's own shallow-loaded contours are not in
-it yet; they are deepened by the first `endPath` (`appendContour` → `len(self)`). -/
-def decomposeAtUnfixed [DecidableEq R] (fuel : Nat) (l : Layer R) (g : Glyph R) (idx : Nat) : Except Err (Glyph R) :=
-  match g.components[idx]? with
-  | none => .error .indexError
-  | some c =>
-    match expand fuel l c.base c.t with
-    | none => .error .outOfFuel
-    | some evs => do
-      let g' ← build true evs g
-      .ok (removeComponentAt g' idx)
-
 /-- the component graph of `l` is acyclic: some rank strictly decreases along every reference -/
 def Acyclic (l : Layer R) (rank : String → Nat) : Prop :=
   ∀ n g, AL.get? l n = some g → ∀ k ∈ g.components, rank k.base < rank n
